@@ -29,6 +29,9 @@ type SQLDB struct {
 	Faults  bool
 	Stats   map[string]int
 	FaultOf map[int]string // task id -> fault injected into that task's current call
+	// ErrKind: how an injected failure surfaces: 0 a server-side error, 1 a connection cut
+	// (unexpected EOF), 2 a timeout on the wire (a net.Error)
+	ErrKind int
 }
 
 // NewSQLDB creates the database.
@@ -60,6 +63,25 @@ func (c *sqlConn) Prepare(q string) (driver.Stmt, error) {
 func (c *sqlConn) Close() error { return nil }
 func (c *sqlConn) Begin() (driver.Tx, error) {
 	return nil, fmt.Errorf("fake sql: transactions not supported")
+}
+
+// ConnErrors makes injected failures surface as connection-level errors (a reset connection, a
+// timeout on the wire) instead of a server-side error. Set per run by the engine.
+type timeoutErr struct{}
+
+func (timeoutErr) Error() string   { return "read tcp 10.0.0.7:51234->10.0.0.9:3306: i/o timeout" }
+func (timeoutErr) Timeout() bool   { return true }
+func (timeoutErr) Temporary() bool { return true }
+
+// injected is the error an injected failure surfaces as.
+func (d *SQLDB) injected() error {
+	switch d.ErrKind {
+	case 1:
+		return fmt.Errorf("%w: %w", ErrInjected, io.ErrUnexpectedEOF)
+	case 2:
+		return fmt.Errorf("%w: %w", ErrInjected, error(timeoutErr{}))
+	}
+	return ErrInjected
 }
 
 var (
@@ -143,7 +165,7 @@ func (c *sqlConn) QueryContext(_ context.Context, q string, args []driver.NamedV
 	d.S.Point(simrt.KSeam, "sql.query")
 	d.Stats["query"]++
 	if f := d.fault("query"); f != "" {
-		return nil, ErrInjected
+		return nil, d.injected()
 	}
 	seq := 0
 	if m := reSelectOne.FindStringSubmatch(q); m != nil {
@@ -165,9 +187,9 @@ func (c *sqlConn) QueryContext(_ context.Context, q string, args []driver.NamedV
 		}
 		d.S.Point(simrt.KSeam, "sql.query.ret")
 		if rec, ok := d.rows[id][created]; ok {
-			return d.rowsWithFault(&sqlRows{vals: []string{rec}, failAt: -1}), nil
+			return d.rowsWithFault(&sqlRows{d: d, vals: []string{rec}, failAt: -1}), nil
 		}
-		return d.rowsWithFault(&sqlRows{failAt: -1}), nil
+		return d.rowsWithFault(&sqlRows{d: d, failAt: -1}), nil
 	}
 	if m := reSelectLatest.FindStringSubmatch(q); m != nil {
 		idv, err := d.arg(m[1], &seq, args)
@@ -194,7 +216,7 @@ func (c *sqlConn) QueryContext(_ context.Context, q string, args []driver.NamedV
 		if m[6] != "" {
 			limit, _ = strconv.Atoi(m[6])
 		}
-		rows := &sqlRows{failAt: -1}
+		rows := &sqlRows{d: d, failAt: -1}
 		for i, cr := range cs {
 			if i >= limit {
 				break
@@ -213,7 +235,7 @@ func (c *sqlConn) ExecContext(_ context.Context, q string, args []driver.NamedVa
 	d.Stats["exec"]++
 	f := d.fault("exec")
 	if f == "before" {
-		return nil, ErrInjected
+		return nil, d.injected()
 	}
 	m := reInsert.FindStringSubmatch(q)
 	if m == nil {
@@ -268,7 +290,7 @@ func (c *sqlConn) ExecContext(_ context.Context, q string, args []driver.NamedVa
 		// the statement succeeds and changes nothing: zero rows affected
 		d.S.Point(simrt.KSeam, "sql.exec.ret")
 		if f == "after" {
-			return nil, ErrInjected
+			return nil, d.injected()
 		}
 		return driver.RowsAffected(0), nil
 	}
@@ -282,12 +304,13 @@ func (c *sqlConn) ExecContext(_ context.Context, q string, args []driver.NamedVa
 	d.rows[id][created] = rec
 	d.S.Point(simrt.KSeam, "sql.exec.ret")
 	if f == "after" {
-		return nil, ErrInjected
+		return nil, d.injected()
 	}
 	return driver.RowsAffected(1), nil
 }
 
 type sqlRows struct {
+	d      *SQLDB
 	vals   []string
 	i      int
 	failAt int // index of the row whose fetch fails (-1 never)
@@ -298,7 +321,7 @@ func (r *sqlRows) Close() error      { return nil }
 func (r *sqlRows) Next(dest []driver.Value) error {
 	if r.failAt >= 0 && r.i == r.failAt {
 		r.failAt = -1
-		return ErrInjected // the connection dropped while the result set was being read
+		return r.d.injected() // the connection dropped while the result set was being read
 	}
 	if r.i >= len(r.vals) {
 		return io.EOF
